@@ -9,6 +9,10 @@ META = {
  "C12": ("final_time/final_state (cache key) set at the end of __call__, final_rhs (cached value) still written by every attempt", "adaptive/implicit RK: a completed-and-rejected attempt followed by the rhs raising during the retry, not in the first step, then resume with dense output: first resumed piece starts with the rejected attempt's end slope", ["C12"], "C12.containing_piece"),
  "C13": ("reset() re-creates the integrator only if status == 1", "run before reset() ended by terminal event or failure (status 2 / exception object) with a method carrying hidden state (implicit: Broyden Jacobian, Newton history), no setter between reset and integrate", ["C13"], "C13.reset_equals_fresh"),
  "C02": ("FSAL 'first stage cached' flag set on a contiguous call and never cleared; compute_step skips stage 0", "DOPRI45 integrator object called from a (t, y) that is not the end of its previous step (restart, reuse, Richardson sub-steps): stale k1", ["C02"], "C02.rk_step_formula"),
+ "C07": ("events of a step sorted by `roots - t_prev` (signed offset)", "backward integration AND two different event functions crossing at different times inside the same step: events listed in reverse order; an event beyond a terminal one reported", ["C07"], "C07.ordered"),
+ "C18": ("first_step clamp folded into the default argument: an explicit first_step is no longer limited by max_step", "max_step given AND explicit first_step > max_step AND nothing else shortens step 0 (no finely spaced t_eval, controller accepts the step): first recorded step longer than max_step", ["C18"], "C18.max_step_respected"),
+ "C16": ("re-initialisation of the FD wrapper keeps the old cached time (`__jac_time = 0.0` slipped inside the 'order is None' guard)", "FD jac(a, y) with a != 0, then unhook_jacobian_call() with nothing hooked, then jac at the same a: Jacobian of rhs(0.0, .) returned", ["C16"], "C16.fd_at_requested_time"),
+ "C15": ("newtontrustregion measures the step size only when a trial step is accepted", "first Newton iteration rejects all three trial steps (poor start, near-singular Jacobian, rootless system): dxn stays 0 and the unchanged initial guess is returned with success=True; inherited by nonlinear_roots on both dispatch paths after MINPACK / hybrj fail", ["C15"], "C15.success_means_solution"),
  "C05": ("retry loop guarded by signed comparison `timestep < current_timestep`", "adaptive RK integrating backward with a rejected step (initial dt comparable to the span): rejected step recorded silently, no retry, no error", ["C05"], "C05.global_error"),
 }
 for pid in sys.argv[1:]:
